@@ -5,7 +5,7 @@
 (* generator, the Go renderer and the trace validator):                               *)
 (*   rec.input.files   : Seq([name, ext, cells : Seq(STRING)])                        *)
 (*   rec.input.filters : Seq(STRING)            the selected extensions               *)
-(*   rec.input.via     : "api" | "cli"          (how the real code was driven)        *)
+(*   rec.input.via     : "api" | "cli" | "cmd"  (how the real code was driven)        *)
 (*   rec.observed      : [panic, timeout, wellformed,                                 *)
 (*                        todos : Seq([file, line, assignee, words : Seq(STRING)])]   *)
 (* A source text is the concatenation of its CELLS.  A cell is either one of the      *)
